@@ -207,12 +207,18 @@ class Executor:
         self._callee_cache = {}
         self.cap = 16
         self.use_domains = os.environ.get('MIRSYM_DOMAINS', '0') == '1'
+        self.harness_types = {'VTok'}
+        self.lift_choices = False
+        self._at_merge_next = False
+        self.fn_overrides = {}        # MIR definition name -> python model replacing it (harness abstractions)
+        self.shape_ignore = set()     # struct types whose contents are data, not control (merged regardless of shape)
         self.merge_policy = 'shape'   # 'shape': merge only states with the same concrete skeleton; 'full'
         self.merge_hook = None    # callable(executor, term, callee, args) -> bool : is this call a merge point?
         self.trace = False
         self.output_events = []   # (pathcond, where) of calls that write to stdout/stderr
         from . import intrinsics as I
         I.install(self)
+        self._intrinsic_name = {f: k for k, f in self.intrinsics.items()}
 
     # ------------------------------------------------------------------ solver / decisions
     def add_assumption(self, a):
@@ -614,6 +620,8 @@ class Executor:
     def project(self, v, step):
         kind = step[0]
         if isinstance(v, Choice):
+            if self.lift_choices and len(v.alts) > 1:
+                return merge_many([(c, self.project(a, step)) for c, a in v.alts if concrete_bool(c) is not False])
             v = self.concretize(v)
         if kind == 'field':
             n = step[1]
@@ -647,6 +655,8 @@ class Executor:
             return val
         step, rest = path[0], path[1:]
         if isinstance(base, Choice):
+            if self.lift_choices and len(base.alts) > 1:
+                return Choice(tuple((c, self.update(a, path, val)) for c, a in base.alts))
             base = self.concretize(base)
         kind = step[0]
         if kind == 'field':
@@ -1226,6 +1236,13 @@ class Executor:
         sd = self._static_dispatch_for(path)
         if sd is not None:
             return sd
+        if recv in self.harness_types:
+            # a harness-implemented type: its trait methods are the registered models, never the trait's defaults
+            ik = self.intrinsic_key(path)
+            f = self.intrinsics.get(ik)
+            if f is not None:
+                self._callee_cache[ck] = (f, ik)
+                return f
         name = self.res.resolve_path(path, recv)
         if name is not None:
             fn = self.mir.functions[name][-1]
@@ -1365,8 +1382,15 @@ class Executor:
             snap.pending_call = t
             self._paused = snap
             raise Paused('merge point')
+        if self._resuming:
+            self._at_merge_next = True      # the resumed call is the merge-point Iterator::next
         self._resuming = False
         target = self.lookup_callee(path, args)
+        if isinstance(target, Function) and target.name in self.fn_overrides:
+            ret = self.fn_overrides[target.name](self, args)
+            if ret is not NotImplemented:
+                self.finish_call(fr, t, ret)
+                return
         if isinstance(target, Function) and self.memo_suffixes and target.name.endswith(self.memo_suffixes) \
                 and 'return' in t.targets:
             key = self._memo_key(target, args)
@@ -1391,8 +1415,38 @@ class Executor:
             nf.ret_to = t.targets.get('return')
             self.frames.append(nf)
             return
-        ret = target(self, args)
+        ret = self.call_intrinsic(target, args)
         self.finish_call(fr, t, ret)
+
+    LIFTABLE = {'PartialEq::eq', 'PartialEq::ne', 'str::len', 'String::len', 'str::is_empty', 'str::contains', 'str::ends_with',
+                'str::starts_with', 'str::trim_end_matches', 'str::trim_start_matches', 'str::trim', 'str::to_lowercase',
+                'str::chars', 'str::split', 'Iterator::all', 'Iterator::any', 'Token::text', 'Token::text_lowercase',
+                'Token::nt_separated', 'Token::not_a_number_part', 'Set::contains', 'String::as_str', 'Deref::deref',
+                'char::is_whitespace', 'char::is_ascii_whitespace', 'char::is_alphabetic', 'char::is_alphanumeric',
+                'Iterator::last', 'CharwiseDoubleArrayAhoCorasick::leftmost_find_iter', 'ToOwned::to_owned',
+                'Borrow::borrow', 'str::to_owned', 'ToString::to_string', 'BasicAnnotate::text_lowercase'}
+
+    def call_intrinsic(self, f, args):
+        """call a model; with lift_choices, pure models are mapped over the alternatives of a Choice argument (no fork)"""
+        if not self.lift_choices:
+            return f(self, args)
+        key = self._intrinsic_name.get(f)
+        if key not in self.LIFTABLE:
+            return f(self, args)
+        for i, a in enumerate(args):
+            v = a
+            if isinstance(a, Ref) and key in ('Iterator::all', 'Iterator::any'):
+                v = self.read_ref(a)
+            if isinstance(v, Choice) and len(v.alts) > 1:
+                outs = []
+                for cond, alt in v.alts:
+                    if concrete_bool(cond) is False:
+                        continue
+                    a2 = list(args)
+                    a2[i] = alt
+                    outs.append((cond, self.call_intrinsic(f, a2)))
+                return merge_many(outs)
+        return f(self, args)
 
     def _memo_key(self, fn, args):
         """hashable digest of fully concrete, reference-free arguments (else None)"""
@@ -1416,6 +1470,15 @@ class Executor:
         self.frames = []
         fr = self.new_frame(fn, args)
         snap = Snapshot([fr], dict(roots or {}), [], self.next_fid)
+        return self.explore_from(snap)
+
+    def explore_with_cond(self, fn_name, args, roots, cond):
+        """like explore, but the paths start under the given path condition (list of z3 Bools)"""
+        fn = self.mir.functions[fn_name][-1] if isinstance(fn_name, str) else fn_name
+        self.next_fid = 1
+        self.frames = []
+        fr = self.new_frame(fn, args)
+        snap = Snapshot([fr], dict(roots or {}), [c for c in cond if not (isinstance(c, bool) and c)], self.next_fid)
         return self.explore_from(snap)
 
     def explore_from(self, snap):
@@ -1512,6 +1575,8 @@ class Executor:
         if isinstance(v, tuple):
             return tuple(self.shape_of(x, depth + 1) for x in v)
         if isinstance(v, Struct):
+            if v.ty in self.shape_ignore:
+                return (v.ty,)
             return (v.ty,) + tuple(self.shape_of(x, depth + 1) for x in v.fields)
         if isinstance(v, Enum):
             d = concrete_int(v.disc) if not is_sym(v.disc) else None
